@@ -21,14 +21,17 @@ def n : Nat := 0xFFFFFFFFFFFFFFFFFFFFFFFFFFFFFFFEBAAEDCE6AF48A03BBFD25E8CD036414
 def Gx : Nat := 0x79BE667EF9DCBBAC55A06295CE870B07029BFCDB2DCE28D959F2815B16F81798
 def Gy : Nat := 0x483ADA7726A3C4655DA4FBFC0E1108A8FD17B448A68554199C47D08FFB10D4B8
 
-/-- `a^e mod p` by square-and-multiply. -/
-def powMod (a e : Nat) : Nat :=
-  if e = 0 then 1 % p
-  else
-    let h := powMod (a * a % p) (e / 2)
-    if e % 2 = 1 then a * h % p else h
-termination_by e
-decreasing_by omega
+/-- Square-and-multiply on the bits of `e`, least significant first; `fuel` bounds the number of bits. -/
+def powModAux : Nat → Nat → Nat → Nat
+  | 0, _, _ => 1 % p
+  | fuel + 1, a, e =>
+    if e = 0 then 1 % p
+    else
+      let h := powModAux fuel (a * a % p) (e / 2)
+      if e % 2 = 1 then a * h % p else h
+
+/-- `a^e mod p` (structural recursion on the bit length of `e`, so that the kernel can evaluate it). -/
+def powMod (a e : Nat) : Nat := powModAux (e.log2 + 1) a e
 
 /-- Inverse in `F_p` by Fermat: `a^(p−2)`. -/
 def inv (a : Nat) : Nat := powMod a (p - 2)
